@@ -9,12 +9,17 @@ Implements various runner types for SQLFluff:
 
 import bdb
 import functools
+import itertools
+import json
 import logging
 import multiprocessing
 import multiprocessing.dummy
 import multiprocessing.pool
+import os
 import signal
 import sys
+import threading
+import time
 import traceback
 from abc import ABC, abstractmethod
 from collections.abc import Iterable, Iterator
@@ -30,6 +35,42 @@ from sqlfluff.core.plugin.host import is_main_process
 linter_logger: logging.Logger = logging.getLogger("sqlfluff.linter")
 
 PartialLintCallable = Callable[[], LintedFile]
+
+# Verification hook: add-only and inert unless SQLFLUFF_VERIF=1. One NDJSON line
+# per runner event is appended to $SQLFLUFF_VERIF_TRACE; workers first sleep for
+# the per-file delay in $SQLFLUFF_VERIF_SCHED (json {basename: seconds}), which
+# only serves to diversify completion orders.
+_verif_seq = itertools.count(1)
+_verif_tls = threading.local()
+
+
+def _verif_on() -> bool:
+    return os.environ.get("SQLFLUFF_VERIF") == "1"
+
+
+def _verif_event(event: str, fname: Optional[str]) -> None:
+    rec = dict(pid=os.getpid(), tid=threading.get_ident(), seq=next(_verif_seq))
+    line = json.dumps(dict(rec, event=event, fname=fname)) + "\n"
+    if os.environ.get("SQLFLUFF_VERIF_TRACE"):
+        flags = os.O_WRONLY | os.O_APPEND | os.O_CREAT
+        fd = os.open(os.environ["SQLFLUFF_VERIF_TRACE"], flags, 0o644)
+        os.write(fd, line.encode())  # single O_APPEND write: lines never interleave
+        os.close(fd)
+
+
+def _verif_worker(
+    partial_tuple: tuple[str, Union[PartialLintCallable, DeferredRenderTask]],
+) -> Union["DelayedException", LintedFile]:
+    fname = partial_tuple[0]
+    _verif_event("take", fname)
+    sched = json.loads(os.environ.get("SQLFLUFF_VERIF_SCHED") or "{}")
+    time.sleep(float(sched.get(fname, sched.get(os.path.basename(fname), 0))))
+    _verif_tls.inside = True
+    try:
+        return ParallelRunner._apply(partial_tuple)
+    finally:
+        _verif_tls.inside = False
+        _verif_event("finish", fname)
 
 
 class BaseRunner(ABC):
@@ -194,12 +235,17 @@ class ParallelRunner(BaseRunner):
                 self._apply,
                 self.iter_partials(fnames, fix=fix),
             ):
+                if _verif_on():
+                    _fn = getattr(lint_result, "fname", None)
+                    _verif_event("consume", _fn or getattr(lint_result, "path", None))
                 if isinstance(lint_result, DelayedException):
                     if isinstance(lint_result.ee, SQLFluffSkipFile):
                         # A file was skipped (e.g. exceeded
                         # large_file_skip_byte_limit). Log a plain warning,
                         # not the "please report as bug" message.
                         linter_logger.warning(str(lint_result.ee))
+                        if _verif_on():
+                            _verif_event("skip", lint_result.fname)
                         self.skipped_file_count += 1
                     else:
                         try:
@@ -234,6 +280,8 @@ class ParallelRunner(BaseRunner):
         partial_tuple: tuple[str, Union[PartialLintCallable, DeferredRenderTask]],
     ) -> Union["DelayedException", LintedFile]:
         """Shim function used in parallel mode."""
+        if _verif_on() and not getattr(_verif_tls, "inside", False):
+            return _verif_worker(partial_tuple)
         fname, task = partial_tuple
         try:
             if isinstance(task, DeferredRenderTask):
